@@ -12,13 +12,14 @@ Open Scope Z_scope.
       its first step, only the done-callback releases (the repaired defect D9);
    3: a handler reading two messages (5-byte prefix, then the body) while frames, an empty frame and a padded
       empty frame arrive; its read blocks and is woken; released twice (finally + done-callback); DATA after that;
-   5: data arrives, handler never reads, stream ends, release. *)
+   5: data arrives, handler never reads, stream ends, release; something reads both buffers again afterwards. *)
 Definition ex_hist : list event :=
   [ Open 1; Data 1 1005 None; Data 1 15 (Some 7); Release 1;
     Open 3; Open 5; Data 3 500 None; Data 5 300 (Some 0);
     Read 3 5; Read 3 1000; Data 3 0 None; Data 3 0 (Some 3); Data 5 20 None;
-    Data 3 505 None; Data 3 105 None; Wake 3; EndStream 5;
-    Release 3; Release 3; Data 3 105 None; Release 5; Release 5 ].
+    Pause; Data 3 505 None; Data 3 105 None; Wake 3; EndStream 5;
+    Release 3; Release 3; Data 3 105 None; Resume;
+    Read 3 5; Release 5; Release 5; Read 5 5; Wake 3 ].
 
 Example ex_hist_events_ok : forallb event_ok ex_hist = true.
 Proof. vm_compute; reflexivity. Qed.
@@ -26,7 +27,16 @@ Proof. vm_compute; reflexivity. Qed.
 Example ex_hist_legal : legal init ex_hist = true.
 Proof. vm_compute; reflexivity. Qed.
 
-Example ex_hist_final : fst (run init ex_hist) = mkSt [] false.
+Example ex_hist_final :
+  let s := fst (run init ex_hist) in
+  closing s = false /\ map (fun x => lookup_live x (reg s)) [1; 3; 5] = [None; None; None] /\
+  map (fun x => match lookup x (reg s) with Some b => (bq b, brel b) | None => ([], false) end) [1; 3; 5] =
+    [([], true); ([], true); ([], true)].
+Proof. vm_compute; repeat split; reflexivity. Qed.
+
+Example ex_hist_reads_after_release :
+  filter (fun x => match x with ORead _ _ | OBlock _ => true | _ => false end) (snd (run init ex_hist)) =
+  [ORead 3 RData; OBlock 3; ORead 3 RData; OBlock 3; ORead 5 REof].
 Proof. vm_compute; reflexivity. Qed.
 
 Example ex_hist_ledger :
@@ -36,7 +46,9 @@ Example ex_hist_ledger :
 Proof. vm_compute; repeat split; reflexivity. Qed.
 
 (* the individual acknowledgements, in order: stream 1 in one piece at release; stream 3 frame by frame as the
-   reads need them (the 105-byte frame only at release), late data at once; stream 5 at release *)
+   reads need them (the 105-byte frame only at release), late data at once; stream 5 at release; all of
+   stream 3's credit is returned while the transport is paused; the reads after the releases (Read 3 5 blocks
+   on the drained queue, Read 5 5 sees EOF) acknowledge nothing *)
 Example ex_hist_acks :
   filter (fun x => match x with OAck _ _ => true | _ => false end) (snd (run init ex_hist)) =
   [OAck 1 1028; OAck 3 500; OAck 3 4; OAck 3 505; OAck 3 105; OAck 3 105; OAck 5 321].
@@ -75,7 +87,8 @@ Proof. vm_compute; reflexivity. Qed.
 
 Example ex_illegal_leaks :
   let '(s, o) := run init ex_illegal in
-  reg s = [] /\ closing s = false /\ received 1 o = 100 /\ credited 1 o = 0.
+  lookup_live 1 (reg s) = None /\ closing s = false /\ received 1 o = 100 /\ credited 1 o = 0 /\
+  held 1 s = 0 /\ forfeited 1 s = 0.
 Proof. vm_compute; repeat split; reflexivity. Qed.
 
 (* "live connection" is needed for no-leak: after Close the release acknowledges nothing *)
@@ -83,8 +96,15 @@ Definition ex_closing : list event := [Open 1; Read 1 5; Data 1 100 (Some 9); Cl
 
 Example ex_closing_forfeits :
   let '(s, o) := run init ex_closing in
-  legal init ex_closing = true /\ closing s = true /\ reg s = [] /\
-  received 1 o = 110 /\ credited 1 o = 0 /\ dropped 1 o = 110 /\ held 1 s = 0.
+  legal init ex_closing = true /\ closing s = true /\ lookup_live 1 (reg s) = None /\
+  received 1 o = 110 /\ credited 1 o = 0 /\ dropped 1 o = 110 /\ held 1 s = 0 /\ forfeited 1 s = 110.
+Proof. vm_compute; repeat split; reflexivity. Qed.
+
+(* ... and because unacked_size() was not even evaluated, the frames are still in the released buffer: a reader
+   that goes on after the release acknowledges them then (conservation still holds: forfeited goes back to 0) *)
+Example ex_closing_read_after_release :
+  let '(s, o) := run init (ex_closing ++ [Read 1 5]) in
+  credited 1 o = 110 /\ forfeited 1 s = 0 /\ received 1 o = credited 1 o + held 1 s + forfeited 1 s.
 Proof. vm_compute; repeat split; reflexivity. Qed.
 
 (* an empty un-padded DATA frame is not queued (it could not be told from the EOF marker), a padded empty one is *)
